@@ -568,6 +568,36 @@ func genC04(c *Ctx) {
 				return "ok " + hx(hold("AggregateBLSSignatures", s))
 			}))
 		}
+		// lists of identity signatures only (and the results written over by the caller, who owns them): afterwards the
+		// identity is still recognised, still neutral, and such lists still aggregate to it
+		{
+			id := make([]byte, 48)
+			id[0] = 0xc0
+			for k := 1; k <= 3; k++ {
+				list := make([]crypto.Signature, k)
+				for j := range list {
+					list[j] = append([]byte{}, id...)
+				}
+				var bh []string
+				for _, s := range list {
+					bh = append(bh, hx(s))
+				}
+				c.Case("agg-sig-identities-only", "agg.sig "+strings.Join(bh, " "), guard(func() string {
+					s, err := crypto.AggregateBLSSignatures(list)
+					if err != nil {
+						return "err " + errClass(err)
+					}
+					v := hx(s)
+					for i := range s { // the result is the caller's
+						s[i] ^= 0x5A
+					}
+					return "ok " + v
+				}))
+			}
+			aggCase("agg-sig-identities-only/after-overwrite", []crypto.Signature{append([]byte{}, id...)})
+			aggCase("agg-sig-identities-only/after-overwrite", []crypto.Signature{honest[0], append([]byte{}, id...)})
+			c.Case("agg-sig-identities-only/identity-still-recognised", "expect true #", fmt.Sprint(crypto.IsBLSSignatureIdentity(append([]byte{}, id...))))
+		}
 		for k := 0; k+1 < len(special); k += 2 {
 			P, N := crypto.Signature(special[k]), crypto.Signature(special[k+1])
 			aggCase("agg-sig-special-point/alone", []crypto.Signature{P})
